@@ -60,6 +60,15 @@ def one_case(case):
                 kind = 'infra' if (t.alive() or 'Address already in use' in err) else 'start'
                 res['problems'].append((kind, 'tacd did not start (exit status %s): %s' % (t.p.poll(), err[-400:])))
                 return res
+            if case.get('second_instance'):
+                # a second responder is started for the same address while this one serves; it cannot listen and goes away,
+                # which must leave the first one reachable
+                t2 = T.Tacd(d, listen, case['domain'], case['proof'], T.KT_NAME[case['key_type']], case['digest'], name='tacd2')
+                try:
+                    C.wait_for(lambda: t2.p.poll() is not None, 8)
+                    res['second_instance_exit'] = t2.p.poll()
+                finally:
+                    t2.stop()
             steps = [{'do': 'tls', 'alpn': o, 'connect_tries': 40} for o in case['offers']]
             # some validation agents speak TLS 1.2 at most (RFC 8737 asks for 1.2 or higher; the shipped responder itself does not negotiate 1.3)
             for k, lim in enumerate(case.get('tls_limits') or []):
@@ -130,9 +139,15 @@ def gen_cases(tier):
         offers, foreign = alpn_offers(r)
         # with the current tacd any refused handshake may end the process (C17);
         # one foreign-only offer per instance, placed last, keeps C16 independent of that
+        proof, digest_hex = proofs[i]
+        if i % 11 == 5:
+            # digests with zero octets where an integer conversion would drop them (same textual form as the daemon renders)
+            digest_hex = ['00' + digest_hex[2:], '0000' + digest_hex[4:], '00' * 32, digest_hex[:-2] + '00', '00' * 31 + '01', 'ff' * 32][(i // 11) % 6]
+            proof = '1.3.6.1.5.5.7.1.31=critical,DER:04:20:' + ':'.join(digest_hex[k:k + 2] for k in range(0, 64, 2))
         cases.append({
             'i': i, 'domain': domain, 'want_name': T.expected_alabel(domain),
-            'proof': proofs[i][0], 'digest_hex': proofs[i][1],
+            'proof': proof, 'digest_hex': digest_hex,
+            'second_instance': i % 9 == 2,
             'key_type': kt, 'digest': dg,
             'listener': 'unix' if i % 2 else ('tcp6' if (HAVE_V6 and i % 8 == 4) else 'tcp'),
             'domain_via': vias[(i // 2) % 3], 'ext_via': vias[(i // 6) % 3],
@@ -153,6 +168,10 @@ def run(tier):
         chk.evaluations += 1
         chk.count('handshakes_judged', res['observed'])
         chk.count('foreign_only_refused', res['refused'])
+        if 'second_instance_exit' in res:
+            chk.count('second_responder_started_on_the_same_address')
+        if c['digest_hex'].startswith('00') or c['digest_hex'].endswith('00'):
+            chk.count('digests_with_zero_octets_at_an_end')
         chk.count('abortive_closes_before_a_valid_handshake', res.get('resets', 0))
         if res['observed']:
             chk.count('listener_' + c['listener'])
